@@ -425,11 +425,20 @@ func buildField(ww *conversionVisitor, node sourcewalk.FieldNode) (*descriptorpb
 
 		if st.Float.ListRules != nil {
 			ww.file.ensureImport(j5ListAnnotationsImport)
-			proto.SetExtension(desc.Options, list_j5pb.E_Field, &list_j5pb.FieldConstraint{
-				Type: &list_j5pb.FieldConstraint_Float{
-					Float: st.Float.ListRules,
-				},
-			})
+			switch st.Float.Format {
+			case schema_j5pb.FloatField_FORMAT_FLOAT32:
+				proto.SetExtension(desc.Options, list_j5pb.E_Field, &list_j5pb.FieldConstraint{
+					Type: &list_j5pb.FieldConstraint_Float{
+						Float: st.Float.ListRules,
+					},
+				})
+			case schema_j5pb.FloatField_FORMAT_FLOAT64:
+				proto.SetExtension(desc.Options, list_j5pb.E_Field, &list_j5pb.FieldConstraint{
+					Type: &list_j5pb.FieldConstraint_Double{
+						Double: st.Float.ListRules,
+					},
+				})
+			}
 		}
 
 		return desc, nil
